@@ -143,12 +143,14 @@ class _Limit(object):
     @staticmethod
     def _get_arg_min(errors):
         shape = errors.shape
-        try:
-            arg_mins = np.nanargmin(errors, axis=0)
-            min_errors = np.nanmin(errors, axis=0)
-        except ValueError as msg:
-            warnings.warn(str(msg))
-            return np.arange(shape[1])
+        all_nan = np.all(np.isnan(errors), axis=0)
+        if np.any(all_nan):
+            warnings.warn('All-NaN slice encountered')
+            # only the columns without any valid estimate fall back to the first row
+            errors = errors.copy()
+            errors[0, all_nan] = np.inf
+        arg_mins = np.nanargmin(errors, axis=0)
+        min_errors = np.nanmin(errors, axis=0)
 
         for i, min_error in enumerate(min_errors):
             idx = np.flatnonzero(errors[:, i] == min_error)
